@@ -368,7 +368,7 @@ pub fn range_case<S: PageSize>(r: &mut Rep, kind: &str, start: u64, end: u64) {
                     Page::from_start_address(va(end)).unwrap(),
                 );
                 let (i, p) = drain(rg.map(|p| p.start_address().as_u64()), cap);
-                if n <= 80 {
+                if n <= 80 && p.is_none() && i == expect {
                     adapters(r, &sigbase, &case, anchor, rg, |p| p.start_address().as_u64(), &expect);
                     partial(r, &sigbase, &case, anchor, rg, |p| p.start_address().as_u64(), |g| (g.len(), g.size(), g.is_empty()), &expect, size);
                 }
@@ -380,7 +380,7 @@ pub fn range_case<S: PageSize>(r: &mut Rep, kind: &str, start: u64, end: u64) {
                     Page::from_start_address(va(end)).unwrap(),
                 );
                 let (i, p) = drain(rg.map(|p| p.start_address().as_u64()), cap);
-                if n <= 80 {
+                if n <= 80 && p.is_none() && i == expect {
                     adapters(r, &sigbase, &case, anchor, rg, |p| p.start_address().as_u64(), &expect);
                     partial(r, &sigbase, &case, anchor, rg, |p| p.start_address().as_u64(), |g| (g.len(), g.size(), g.is_empty()), &expect, size);
                 }
@@ -392,7 +392,7 @@ pub fn range_case<S: PageSize>(r: &mut Rep, kind: &str, start: u64, end: u64) {
                     PhysFrame::from_start_address(pa(end)).unwrap(),
                 );
                 let (i, p) = drain(rg.map(|p| p.start_address().as_u64()), cap);
-                if n <= 80 {
+                if n <= 80 && p.is_none() && i == expect {
                     adapters(r, &sigbase, &case, anchor, rg, |p| p.start_address().as_u64(), &expect);
                     partial(r, &sigbase, &case, anchor, rg, |p| p.start_address().as_u64(), |g| (g.len(), g.size(), g.is_empty()), &expect, size);
                 }
@@ -404,7 +404,7 @@ pub fn range_case<S: PageSize>(r: &mut Rep, kind: &str, start: u64, end: u64) {
                     PhysFrame::from_start_address(pa(end)).unwrap(),
                 );
                 let (i, p) = drain(rg.map(|p| p.start_address().as_u64()), cap);
-                if n <= 80 {
+                if n <= 80 && p.is_none() && i == expect {
                     adapters(r, &sigbase, &case, anchor, rg, |p| p.start_address().as_u64(), &expect);
                     partial(r, &sigbase, &case, anchor, rg, |p| p.start_address().as_u64(), |g| (g.len(), g.size(), g.is_empty()), &expect, size);
                 }
